@@ -229,6 +229,14 @@ func c08Receivers() map[string]func() any {
 		},
 		"BASIC cap": func() any { return stackage.Basic(4).Push(1, 2) },
 		"NOT mutex": func() any { return stackage.Not().SetMutex().Push("x") },
+		"OR mutex strings-only policy": func() any {
+			return stackage.Or().SetMutex().SetPushPolicy(func(x ...any) error {
+				if _, ok := x[0].(string); !ok {
+					return errCat
+				}
+				return nil
+			}).Push("x")
+		},
 		"empty OR":  func() any { return stackage.Or() },
 		"LIST enc":  func() any { return stackage.List().SetEncap(`"`).SetDelimiter(",").SetID("x").Push("a", "b") },
 		"Condition enc": func() any {
@@ -328,10 +336,13 @@ func c08ValueCases(c *Ctx, run bool) (n int) {
 					takesAny = true
 				}
 			}
+			limit := 400
 			if !takesAny {
-				continue
+				// the methods that take no element value (options, Free, Init, Reset, getters ...) with a small
+				// catalogue: what matters for them is what every other handle on the instance does afterwards
+				limit = 24
 			}
-			for _, t := range argTuples(me.Type, pick, 400) {
+			for _, t := range argTuples(me.Type, pick, limit) {
 				jobs = append(jobs, job{rname, me, t})
 			}
 		}
@@ -382,6 +393,8 @@ func c08ValRun(c *Ctx, mk func() any, cs c08ValCase, args []reflect.Value, count
 		lenBefore, capBefore = sx.Len(), sx.Cap()
 	}
 	argsBefore := c08ArgText(argsX)
+	// the instance is also an element of somebody else's stack
+	holder := stackage.List().Push(x)
 	callMethod(pw, cs.Method, argsY)
 	_, p := callMethod(pv, cs.Method, argsX)
 	if p == "" && !usesSelf {
@@ -418,6 +431,10 @@ func c08ValRun(c *Ctx, mk func() any, cs c08ValCase, args []reflect.Value, count
 	// the receiver (the same underlying instance) must remain usable
 	if fn, p := followUps(x, y); p != "" {
 		c.Violation("panic-after:"+cs.Method+":"+awkClass(cs.Args)+":"+fn, desc+" returned, but "+fn+" then panicked: "+p, cs, len(desc))
+		return
+	}
+	if fn, p := followUps(holder); p != "" {
+		c.Violation("panic-after:"+cs.Method+":"+awkClass(cs.Args)+":holder."+fn, desc+" returned, but "+fn+" on a stack that holds the instance as an element then panicked: "+p, cs, len(desc))
 		return
 	}
 	if count {
